@@ -3,7 +3,7 @@
 1. *Correspondence* — the `Float` instance of the polymorphic Lean model (`Opda.Noisy.cdf/pdf`, the term the
    C06 theorems are about) against the implementation, on the same bit patterns.  Both run the same
    algorithm with different libm's, and parts of the algorithm amplify a one-ulp difference enormously, so
-   the allowance is measured, not fixed: the driver returns the spread of four re-evaluations with every
+   the allowance is measured, not fixed: the driver returns the spread of eight re-evaluations with every
    transcendental result nudged by +-8 ulps and the comparator allows `1e-12 + 16*spread`.  Where that
    allowance exceeds a tenth of the property's tolerance the case is *ill-conditioned* and is compared with
    the Spec oracle (mpmath quadrature of the convolution) at the property's tolerance instead.
